@@ -627,17 +627,14 @@ def compare(ctx, reqs, pending, answers):
 
 def run(ctx):
     load_own_known(ctx, 'C06')
-    table = None
-    if ctx.model_ok:
-        table = common.run_driver('C06', [{'op': 'table'}])[0]
     reqs, pending = [], []
     fixed_probes(ctx)
-    if table is not None:
-        stream_parens(ctx, table)
     stream_programs(ctx, reqs, pending)
     if ctx.model_ok:
-        answers = common.run_driver_parallel('C06', reqs)
-        compare(ctx, reqs, pending, answers)
+        # one driver run: the table first, then the captured inline / _replace calls
+        answers = common.run_driver_parallel('C06', [{'op': 'table'}] + reqs)
+        stream_parens(ctx, answers[0])
+        compare(ctx, reqs, pending, answers[1:])
     else:
         ctx.notes.append('model did not build: correspondence skipped, oracle only')
     ctx.obligations['assumptions'] = [
